@@ -12,6 +12,7 @@ package main
 //        unlockx S K                Unlock(K, id_S) with S a caller of another key (foreign but genuine id)
 //        expire S                   let S's TTL watchdog (short TTL, stopped at the hook) call remove
 //        gwttl T… | gwcancel        gateway Lock/Unlock handlers (TTL floor and clamp, WithoutCancel)
+//        gwrace                      the cancel-vs-grant race through the Lock RPC (its caller gives up while it is being granted)
 //        lock K zero|neg|min         a TTL ≤ 0: the watchdog fires at once (treated like `short`)
 // reply: <event> q=[S…] g=[S…] h=[S…]   queue, callers whose ready channel is closed, callers that
 //                                   acquired and are still queued (all as caller numbers, from the
@@ -100,7 +101,7 @@ func (w *c14World) gate(op string) (string, bool) {
 func c14NewWorld(lk lock.Lock) *c14World {
 	return &c14World{lk: lk, events: make(chan c14Event, 4096), known: map[string]bool{},
 		holds: map[string]chan struct{}{}, ttlWait: map[string]chan struct{}{}, ttlAt: map[string]time.Time{}, byID: map[string]*c14Sess{}, byKey: map[string]*c14Sess{},
-		timeout: 3 * time.Second}
+		timeout: HxScale(3 * time.Second)}
 }
 
 // handler runs inside the lock package's goroutines.
@@ -480,7 +481,7 @@ func (w *c14World) cleanup() {
 	for _, s := range w.sess {
 		keys[s.key] = true
 	}
-	deadline := time.Now().Add(2 * time.Second)
+	deadline := time.Now().Add(HxScale(2 * time.Second))
 	for {
 		busy := false
 		for k := range keys {
@@ -530,7 +531,7 @@ func genC14(rng *rand.Rand, tier string, w *bufio.Writer) {
 		fmt.Fprintf(w, "case %d\nlock a long\nlock a long hold\nlock a long\ncancel 2\nunlock 1\ngo 2\nunlock 2\nunlock 3\n", 2+i)
 	}
 	fmt.Fprintln(w, "case 6\nlock a long\nlock a long hold\nlock a long\ncancel 2\ngo 2\nunlock 1\nlock b long hold\ncancel 4\nlock b long\ngo 4")
-	fmt.Fprintln(w, "case 7\ngwttl -3 -9223372036854775808 1000 2000 9223372036854 9223372036855 9300000000000 9223372036854775807\ngwcancel")
+	fmt.Fprintln(w, "case 7\ngwttl -3 -9223372036854775808 1000 2000 9223372036854 9223372036855 9300000000000 9223372036854775807\ngwcancel\ngwrace\ngwrace\ngwrace\ngwrace")
 	// ids issued on one key used on another: holder and waiter of b must be untouched by a's ids
 	// pre-cancelled contexts on a FREE key (granted head + ctx.Done both ready: either branch must
 	// leave a consistent queue), repeated on the same key; zero / negative / MinInt64 TTLs
@@ -802,7 +803,7 @@ func runC14(in *bufio.Scanner, out *bufio.Writer) {
 				w.release(w.ttlWait, s.qid)
 			}
 			fmt.Fprintf(out, "expire %d %s %s\n", s.n, res, w.state(s.key))
-		case "gwttl", "gwcancel":
+		case "gwttl", "gwcancel", "gwrace":
 			fmt.Fprintln(out, c14Gateway(f, install))
 			install(c14NewWorld(lock.New()))
 		default:
@@ -823,12 +824,12 @@ func c14Gateway(f []string, install func(*c14World)) string {
 	}
 	gw := c14Rig.GW
 	w := c14NewWorld(c14Rig.Zeus.GetHydra().GetLocker())
-	w.timeout = 4 * time.Second
+	w.timeout = HxScale(4 * time.Second)
 	install(w)
 	switch f[0] {
 	case "gwttl":
 		// gwttl T1 T2 …: one Lock RPC per TTL (distinct keys), all watchdogs run side by side; each
-		// is stopped at the lock.ttl hook when its timer fires.  eff = observed life time in whole
+		// is stopped at the lock.ttl hook when its timer fires.  timeout = observed life time (the word makes a mismatch on this line timing-shaped for the re-check) in whole
 		// seconds (rounded down: a timer only fires late), `gt3000` = still held after 3 s.
 		if len(f) < 2 {
 			return "bad-op"
@@ -850,20 +851,20 @@ func c14Gateway(f []string, install func(*c14World)) string {
 			key := fmt.Sprintf("gwttl-%d-%d-%d", i, ttl, time.Now().UnixNano())
 			resp, err := gw.Lock(context.Background(), &hydrapb.LockRequest{Key: key, TTL: ttl})
 			if err != nil || resp == nil {
-				o.res = "lock-error"
+				o.res = "lock-err"
 				if ids, _, _ := lock.VerifSnapshot(w.lk, key); len(ids) > 0 {
-					o.res = "lock-error-residual"
+					o.res = "lock-err-residual"
 				}
 				continue
 			}
 			acq, ok := w.waitForRaw("lock.acq", resp.LockID)
 			if !ok {
-				o.res = "no-acq"
+				o.res = "timeout-no-acq"
 				continue
 			}
 			o.id, o.at = acq.id, acq.at
 		}
-		deadline := time.Now().Add(3 * time.Second)
+		deadline := time.Now().Add(HxScale(3 * time.Second))
 		for {
 			pending := false
 			w.mu.Lock()
@@ -872,7 +873,7 @@ func c14Gateway(f []string, install func(*c14World)) string {
 					continue
 				}
 				if at, ok := w.ttlAt[o.id]; ok {
-					o.res = fmt.Sprintf("eff=%d", at.Sub(o.at).Milliseconds()/1000*1000)
+					o.res = fmt.Sprintf("timeout=%d", at.Sub(o.at).Milliseconds()/1000*1000)
 				} else {
 					pending = true
 				}
@@ -886,19 +887,78 @@ func c14Gateway(f []string, install func(*c14World)) string {
 		out := "gwttl"
 		for _, o := range all {
 			if o.res == "" {
-				o.res = "eff=gt3000"
+				o.res = "timeout=gt3000"
 			}
 			out += " " + o.txt + ":" + o.res
 		}
 		return out
+	case "gwrace":
+		// the cancel-vs-grant race through the real RPC: a second Lock RPC is stopped right before its select, its
+		// caller gives up, then the holder unlocks (the waiter is granted) — both select branches are ready when it
+		// is released.  Reply: the branch the runtime took, what the RPC returned, and who is left on the key.
+		key := fmt.Sprintf("gwrace-%d", time.Now().UnixNano())
+		first, err := gw.Lock(context.Background(), &hydrapb.LockRequest{Key: key, TTL: 60000})
+		if err != nil {
+			return "gwrace lock-err"
+		}
+		w.waitForRaw("lock.acq", first.LockID)
+		ctx, cancel := context.WithCancel(context.Background())
+		defer cancel()
+		type res struct {
+			id  string
+			err error
+		}
+		done := make(chan res, 1)
+		w.mu.Lock()
+		w.holdNext = true
+		w.mu.Unlock()
+		go func() {
+			r, err := gw.Lock(ctx, &hydrapb.LockRequest{Key: key, TTL: 60000})
+			id := ""
+			if r != nil {
+				id = r.LockID
+			}
+			done <- res{id, err}
+		}()
+		enq, ok := w.wait(func(e c14Event) bool { return e.name == "lock.enq" && e.raw != first.LockID })
+		if !ok {
+			return "gwrace timeout no-enq"
+		}
+		if _, ok := w.waitFor("lock.select", enq.id); !ok {
+			return "gwrace timeout no-select"
+		}
+		cancel()
+		_, _ = gw.Unlock(context.Background(), &hydrapb.UnlockRequest{Key: key, LockID: first.LockID})
+		if _, ok := w.waitForRaw("lock.rm", first.LockID); !ok {
+			return "gwrace timeout no-rm"
+		}
+		w.release(w.holds, enq.id)
+		ev, ok := w.wait(func(e c14Event) bool { return e.id == enq.id && (e.name == "lock.acq" || e.name == "lock.cancel") })
+		if !ok {
+			return "gwrace timeout no-branch"
+		}
+		branch := strings.TrimPrefix(ev.name, "lock.")
+		out := "timeout"
+		select {
+		case r := <-done:
+			out = "err"
+			if r.err == nil && r.id != "" {
+				out = "ok"
+				_, _ = gw.Unlock(context.Background(), &hydrapb.UnlockRequest{Key: key, LockID: r.id})
+			}
+		case <-time.After(HxScale(3 * time.Second)):
+		}
+		ids, _, _ := lock.VerifSnapshot(w.lk, key)
+		return fmt.Sprintf("gwrace %s %s left=%d", branch, out, len(ids))
 	case "gwcancel":
 		key := fmt.Sprintf("gwcancel-%d", time.Now().UnixNano())
 		first, err := gw.Lock(context.Background(), &hydrapb.LockRequest{Key: key, TTL: 60000})
 		if err != nil {
-			return "gwcancel lock-error"
+			return "gwcancel lock-err"
 		}
 		w.waitForRaw("lock.acq", first.LockID)
 		ctx, cancel := context.WithCancel(context.Background())
+		defer cancel()
 		type res struct {
 			id  string
 			err error
@@ -914,13 +974,13 @@ func c14Gateway(f []string, install func(*c14World)) string {
 		}()
 		enq, ok := w.wait(func(e c14Event) bool { return e.name == "lock.enq" && e.raw != first.LockID })
 		if !ok {
-			return "gwcancel no-enq"
+			return "gwcancel timeout no-enq"
 		}
 		w.waitFor("lock.select", enq.id)
 		cancel()
 		// a cancellable wait would leave through the ctx.Done branch now
 		kept := "kept"
-		if w.quiet(func(e c14Event) bool { return e.name == "lock.cancel" && e.id == enq.id }, 300*time.Millisecond) {
+		if w.quiet(func(e c14Event) bool { return e.name == "lock.cancel" && e.id == enq.id }, HxScale(300*time.Millisecond)) {
 			kept = "removed"
 		}
 		_, _ = gw.Unlock(context.Background(), &hydrapb.UnlockRequest{Key: key, LockID: first.LockID})
@@ -931,7 +991,7 @@ func c14Gateway(f []string, install func(*c14World)) string {
 				out = "acq"
 				_, _ = gw.Unlock(context.Background(), &hydrapb.UnlockRequest{Key: key, LockID: r.id})
 			}
-		case <-time.After(3 * time.Second):
+		case <-time.After(HxScale(3 * time.Second)):
 			out = "timeout"
 		}
 		return "gwcancel " + kept + " " + out
@@ -1020,7 +1080,7 @@ func genC14s(rng *rand.Rand, tier string, w *bufio.Writer) {
 						cancel()
 						ctx, cancel = context.WithTimeout(context.Background(), time.Duration(200+lr.Intn(2500))*time.Microsecond)
 					}
-					ttl := 5 * time.Second
+					ttl := time.Minute
 					short := lr.Intn(3) == 0
 					if short {
 						ttl = time.Duration(500+lr.Intn(2000)) * time.Microsecond
@@ -1052,10 +1112,10 @@ func genC14s(rng *rand.Rand, tier string, w *bufio.Writer) {
 		hung := false
 		select {
 		case <-done:
-		case <-time.After(20 * time.Second):
+		case <-time.After(HxScale(60 * time.Second)): // (the generator is not re-run: the window itself is generous)
 			hung = true
 		}
-		time.Sleep(5 * time.Millisecond) // outstanding short-TTL watchdogs
+		time.Sleep(HxScale(5 * time.Millisecond)) // outstanding short-TTL watchdogs
 		verifhook.SetHandler(nil)
 		fmt.Fprintf(w, "case %d\n", r)
 		mu.Lock()
@@ -1066,6 +1126,9 @@ func genC14s(rng *rand.Rand, tier string, w *bufio.Writer) {
 			fmt.Fprintln(w, "hang")
 		}
 		mu.Unlock()
+		if hung {
+			return // one hang is the verdict: do not spend the window again in every later round
+		}
 	}
 }
 
